@@ -140,24 +140,27 @@ def run(ctx):
             e2 = eye(mu0=mu0 + c, mu1=mu0 + mu + c, s0=s0, s1=s1)
             b1, b2 = float(ook.BER_analizer("estimator", eye_obj=e1)), float(ook.BER_analizer("estimator", eye_obj=e2))
             if b1 > 1e-200:
-                eq("estimator-translation-invariant", b1, b2, tol=20000)
-                eq("estimator=formula-on-eye-statistics", b1, v, tol=300000)
+                # (probabilities formed as 1 - (1 - p) carry an absolute rounding error of about M*1e-16: an absolute allowance of 3e-12 next to the relative one)
+                eq("estimator-translation-invariant", b1 + 1e-9, b2 + 1e-9, tol=20000)
+                eq("estimator=formula-on-eye-statistics", b1 + 1e-9, v + 1e-9, tol=300000)
             # an eye object that also carries other fields (as the ones GET_EYE returns do): the estimate only depends on mu1-mu0, s0, s1 (and M)
             e3 = eye(mu0=mu0, mu1=mu0 + mu, s0=s0, s1=s1, threshold=mu0 + 0.8 * mu, t_opt=0.1, i=3, sps=16)
             b3 = float(ook.BER_analizer("estimator", eye_obj=e3))
             if b1 > 1e-200:
-                eq("estimator-translation-invariant", b3, b1, tol=20000)
+                eq("estimator-translation-invariant", b3 + 1e-9, b1 + 1e-9, tol=20000)
             for dec in ("soft", "hard"):
                 p3 = float(ppm.BER_analizer("estimator", eye_obj=e3, M=M, decision=dec))
                 p1_ = float(ppm.BER_analizer("estimator", eye_obj=e1, M=M, decision=dec))
                 if p1_ > 1e-200:
-                    eq("estimator-translation-invariant", p3, p1_, tol=20000)
+                    eq("estimator-translation-invariant", p3 + (1e-5 if dec == "soft" else 1e-9), p1_ + (1e-5 if dec == "soft" else 1e-9), tol=20000)
             for dec in ("soft", "hard"):
                 p1 = float(ppm.BER_analizer("estimator", eye_obj=e1, M=M, decision=dec))
                 p2 = float(ppm.BER_analizer("estimator", eye_obj=e2, M=M, decision=dec))
                 if p1 > 1e-200:
-                    eq("estimator-translation-invariant", p1, p2, tol=20000)
-                    eq("estimator=formula-on-eye-statistics", p1, float(ppm.theory_BER(mu, s0, s1, M, dec)), tol=300000)
+                    # absolute allowance: 3e-12 (hard: rounding of 1 - product of M probabilities) / 3e-8 (soft: the quadrature's absolute accuracy, as above)
+                    c_ = 1e-5 if dec == "soft" else 1e-9
+                    eq("estimator-translation-invariant", p1 + c_, p2 + c_, tol=20000)
+                    eq("estimator=formula-on-eye-statistics", p1 + c_, float(ppm.theory_BER(mu, s0, s1, M, dec)) + c_, tol=300000)
             t1, t2 = float(ook.THRESHOLD_EST(e1)), float(ook.THRESHOLD_EST(e2))
             eq("threshold-translation-equivariant", (t2 - t1 - c) / mu + 1, 1.0, tol=400000)      # equal up to a few steps of the 1000-point threshold grid
             ev("inside", "threshold-inside-[mu0,mu1]", lo=sci(mu0 + 100), x=sci(t1 + 100), hi=sci(mu0 + mu + 100))
